@@ -105,3 +105,48 @@ theorem byteCmp_ok : T.CmpOk byteCmp where
   eq_trans := fun h1 h2 => by rw [(byteCmp_eq_iff _ _).mp h1]; exact h2
 
 end Qlibc.Tree
+
+namespace Qlibc.Tree
+open Qlibc
+
+/-- a comparator pulled back along a key transformation is again a total preorder
+    (it identifies keys with the same image: e.g. case folding) -/
+theorem T.CmpOk.comap {K K' : Type} {cmp : K' → K' → Ordering} (h : T.CmpOk cmp) (f : K → K') :
+    T.CmpOk (fun a b => cmp (f a) (f b)) where
+  refl := fun a => h.refl (f a)
+  swap := fun a b => h.swap (f a) (f b)
+  lt_trans := fun h1 h2 => h.lt_trans h1 h2
+  eq_lt := fun h1 h2 => h.eq_lt h1 h2
+  lt_eq := fun h1 h2 => h.lt_eq h1 h2
+  eq_trans := fun h1 h2 => h.eq_trans h1 h2
+
+/-- the reversed comparator is again a total preorder -/
+theorem T.CmpOk.flip {K : Type} {cmp : K → K → Ordering} (h : T.CmpOk cmp) :
+    T.CmpOk (fun a b => cmp b a) where
+  refl := fun a => h.refl a
+  swap := fun a b => h.swap b a
+  lt_trans := fun h1 h2 => h.lt_trans h2 h1
+  eq_lt := fun h1 h2 => h.lt_eq h2 h1
+  lt_eq := fun h1 h2 => h.eq_lt h2 h1
+  eq_trans := fun h1 h2 => h.eq_trans h2 h1
+
+/-- ASCII lower-casing of one byte (the harness' case-folding comparator) -/
+def lowerByte (c : UInt8) : UInt8 := if 65 ≤ c && c ≤ 90 then c + 32 else c
+
+/-- the three comparators the correspondence harness installs with `qtreetbl_set_compare`:
+    0 = `qtreetbl_byte_cmp`, 1 = reverse order, 2 = ASCII case folding (identifies keys) -/
+def harnessCmp (mode : Nat) : Bytes → Bytes → Ordering :=
+  match mode with
+  | 1 => fun a b => byteCmp b a
+  | 2 => fun a b => byteCmp (a.map lowerByte) (b.map lowerByte)
+  | _ => byteCmp
+
+/-- every comparator used by the harness satisfies the hypothesis of the C01–C04 theorems -/
+theorem harnessCmp_ok (mode : Nat) : T.CmpOk (harnessCmp mode) := by
+  unfold harnessCmp
+  split
+  · exact byteCmp_ok.flip
+  · exact byteCmp_ok.comap (fun (a : Bytes) => a.map lowerByte)
+  · exact byteCmp_ok
+
+end Qlibc.Tree
